@@ -2,7 +2,9 @@
 //! prints the *shape* of the resulting tree, so that the grouping predicted from the translated
 //! binding-power tables can be compared with what the linked parsers do.
 //!
-//! Output per line:  <src> \t ir=<shape> \t peg=<shape> \t rowan=<ok|errors>
+//! Output per line:  <src> \t ir=<shape> \t peg=<shape> \t rowan=<ok|errors> \t lex=<KIND@start-end,...>
+//! A line `hex:<hex digits>` denotes the UTF-8 text with those bytes (for texts containing newlines etc.);
+//! the `lex=` field is the token sequence of the real jrsonnet-lexer (E3 lexical-grammar replay).
 //! shape: `bin(OP,l=<shape>,r=<shape>)`, `un(OP,<shape>)`, `atom`, `err`.
 use jrsonnet_ir::{Expr, Source};
 use std::io::BufRead;
@@ -17,17 +19,34 @@ fn shape(e: &Expr) -> String {
 fn main() {
     let stdin = std::io::stdin();
     for line in stdin.lock().lines() {
-        let line = line.unwrap();
+        let orig = line.unwrap();
+        let line = match orig.strip_prefix("hex:") {
+            Some(h) => {
+                let bytes: Vec<u8> = (0..h.len() / 2).map(|i| u8::from_str_radix(&h[2 * i..2 * i + 2], 16).unwrap()).collect();
+                String::from_utf8(bytes).unwrap()
+            }
+            None => orig.clone(),
+        };
+        let lexed: Vec<String> = jrsonnet_lexer::Lexer::new(&line)
+            .map(|l| format!("{:?}@{}-{}", l.kind, l.range.0, l.range.1))
+            .collect();
         let src = Source::new_virtual("replay".into(), line.as_str().into());
         let ir = jrsonnet_ir_parser::parse(&line, &jrsonnet_ir_parser::ParserSettings { source: src.clone() });
         let peg = jrsonnet_peg_parser::parse(&line, &jrsonnet_peg_parser::ParserSettings { source: src });
-        let (_tree, errors) = jrsonnet_rowan_parser::parse(&line);
+        let errors = match std::panic::catch_unwind(|| jrsonnet_rowan_parser::parse(&line).1) {
+            Ok(e) => e,
+            Err(_) => {
+                println!("{}\tir=panic\tpeg=panic\trowan=panic\tlex={}", orig, lexed.join(","));
+                continue;
+            }
+        };
         println!(
-            "{}\tir={}\tpeg={}\trowan={}",
-            line,
+            "{}\tir={}\tpeg={}\trowan={}\tlex={}",
+            orig,
             ir.as_ref().map_or("err".to_string(), shape),
             peg.as_ref().map_or("err".to_string(), shape),
-            if errors.is_empty() { "ok" } else { "errors" }
+            if errors.is_empty() { "ok" } else { "errors" },
+            lexed.join(",")
         );
     }
 }
